@@ -623,6 +623,11 @@ pub fn programs() -> Vec<Prog> {
         ("rawnl-string", "permit(principal, action, resource) when { \"a\n\n  b\" == context.s };".into()),
         ("rawnl-annotation", "@a(\"x\n\ny\")\npermit(principal, action, resource);".into()),
         ("rawnl-like", "permit(principal, action, resource) when { context.s like \"a*\n\n*b\" };".into()),
+        ("rawnl-url-string", "permit(principal, action, resource) when { \"http://x\n\n  y\" == context.s && context.t like \"//*\n\n\" };".into()),
+        ("rawnl-url-annotation", "@a(\"see //x\n\n\ty\")\n@b(\"\n\n\")\npermit(principal, action, resource);".into()),
+        ("lex-idents", "@_a1(\"x\")\npermit(principal in _NS::T_1::\"x\", action, resource) when { principal._x9 == context.A_b && {_k: 1}._k == 1 && context has _y && resource is _NS::T_1 };".into()),
+        ("lex-strings", "permit(principal, action, resource == User::\"a b\\\"c\\\\\") when { \"\\n\\r\\t\\\\\\0\\'\\\"\\u{1F600}\u{e9}\u{1F600}\" == \"'\" && context.s like \"\\*a*\\u{2a}\" };".into()),
+        ("lex-numbers", "permit(principal, action, resource) when { 007 + 0 == 7 && 9223372036854775807 > 1 && -0 == 0 };".into()),
         ("and-chain", "permit(principal, action, resource) when { principal.a && principal.b && principal.c && principal.d && principal.e };".into()),
         ("or-chain", "permit(principal, action, resource) when { principal.a || principal.b || principal.c || principal.d };".into()),
         ("add-chain", "permit(principal, action, resource) when { 1 + 2 - 3 + context.n - 4 * 5 * -6 == 0 };".into()),
@@ -1017,7 +1022,7 @@ pub fn run(tier: Tier, replay_file: Option<&str>) -> i32 {
         json!({
             "tier": tier.name(),
             "programs": preps.len(),
-            "program_space": "operator shapes (39) x leaves (9) in every operand position at depth 1; parent x position x child shape at depth 2; parenthesisation minimal/full/redundant + index-style attributes; 30 single-slot scope forms (+ full 8x6x8 product in thorough); 12 annotation forms; 8 when/unless lists; policy sets of 2 and 3 from a pool of 6 (templates included); 16 hand-written texts. quick = the small set (all depth-1 shapes in 4 styles, one leaf per operand position, three child shapes per parent position in rotation, single-slot scope forms, annotations, cond lists, 9 pairs + 8 triples, hand-written texts)",
+            "program_space": "operator shapes (39) x leaves (9) in every operand position at depth 1; parent x position x child shape at depth 2; parenthesisation minimal/full/redundant + index-style attributes; 30 single-slot scope forms (+ full 8x6x8 product in thorough); 12 annotation forms; 8 when/unless lists; policy sets of 2 and 3 from a pool of 6 (templates included); 21 hand-written texts. quick = the small set (all depth-1 shapes in 4 styles, one leaf per operand position, three child shapes per parent position in rotation, single-slot scope forms, annotations, cond lists, 9 pairs + 8 triples, hand-written texts)",
             "comments": {"zero": "4 whitespace layouts (as printed, compact, one token per line, blank lines between tokens)", "one": format!("{} kinds at every token boundary (incl. before the first and after the last token){}", kinds.len(), if two { "; all 30 configs for kinds Eol/Own on every program and for every kind on the small program set, the 6-config cut for the other kinds on the remaining programs" } else { "" }), "two": if two { "kinds {Eol,Own}^2 at every pair of boundaries b1<=b2 of the small program set, 6 configs" } else { "not in this tier" }},
             "comment_kinds": kinds.iter().map(|k| format!("{k:?}")).collect::<Vec<_>>(),
             "configs": format!("{} of line_width {{1,10,40,80,120,1000}} x indent_width {{0,1,2,4,8}}", cfgs.len()),
